@@ -359,8 +359,95 @@ Proof.
   rewrite (props_top frag from l 0 m from [] _ ltac:(lia) H).
   destruct (props_items frag from from l) as [ps b]. cbn [fst snd]. rewrite app_nil_r.
   destruct last as [[[[[ns ne] colon] vs] ve]|].
-  - cbn [props_go ety estart eend edelim pp_nested pp_pending pp_before truthyZ Z.eqb negb].
+  - cbn [props_go props_flush ety estart eend edelim pp_nested pp_pending pp_before truthyZ Z.eqb negb].
     cbn [rev]. rewrite rev_involutive.
     unfold mk_property, property_of, r_start, r_end, decl_end; cbn [fst snd Z.eqb]. reflexivity.
-  - cbn [props_go]. rewrite rev_involutive, app_nil_r. reflexivity.
+  - cbn [props_go props_flush pp_pending]. rewrite rev_involutive, app_nil_r. reflexivity.
+Qed.
+
+(* ------------------------------------------------------------------ the end of the body *)
+Lemma skipn_nth_error {A} (s : list A) : forall k,
+  skipn k s = match nth_error s k with Some x => x :: skipn (S k) s | None => [] end.
+Proof.
+  induction s as [|x r IH]; intros [|k]; cbn [skipn nth_error]; try reflexivity. apply IH.
+Qed.
+
+(* fragment[d:d+1] == ':' for d >= 0 says that the character at d is a colon *)
+Lemma slice1_colon (s : str) (d : Z) : 0 <= d ->
+  str_eqb (py_slice s d (d + 1)) [c_colon] =
+  match nth_error s (Z.to_nat d) with Some c => (c =? c_colon)%N | None => false end.
+Proof.
+  intros Hd. unfold py_slice, py_slice_bound.
+  replace (d <? 0) with false by lia. replace (d + 1 <? 0) with false by lia.
+  set (n := Z.of_nat (length s)).
+  destruct (Z_lt_le_dec d n) as [Hlt|Hge].
+  - replace (Z.min d n) with d by lia. replace (Z.min (d + 1) n) with (d + 1) by lia.
+    replace (Z.to_nat (d + 1 - d)) with 1%nat by lia.
+    rewrite skipn_nth_error.
+    destruct (nth_error s (Z.to_nat d)) as [c|] eqn:E.
+    + cbn [firstn str_eqb]. rewrite andb_true_r. reflexivity.
+    + apply nth_error_None in E. subst n. lia.
+  - replace (Z.min d n) with n by lia. replace (Z.min (d + 1) n) with n by lia.
+    replace (Z.to_nat (n - n)) with 0%nat by lia. cbn [firstn str_eqb].
+    destruct (nth_error s (Z.to_nat d)) as [c|] eqn:E; [|reflexivity].
+    assert (nth_error s (Z.to_nat d) <> None) as Hn by congruence.
+    apply nth_error_Some in Hn. subst n. lia.
+Qed.
+
+Lemma colon_at_test frag colon : colon_at frag colon ->
+  negb (colon =? -1) && str_eqb (py_slice frag colon (colon + 1)) [c_colon] = true.
+Proof.
+  intros [H0 Hn]. rewrite (slice1_colon frag colon H0), Hn.
+  replace (colon =? -1) with false by lia. reflexivity.
+Qed.
+
+Lemma no_colon_at_test frag d : no_colon_at frag d ->
+  negb (d =? -1) && str_eqb (py_slice frag d (d + 1)) [c_colon] = false.
+Proof.
+  intros [->|[H0 Hn]]; [reflexivity|].
+  rewrite (slice1_colon frag d H0). replace (d =? -1) with false by lia. cbn [negb andb].
+  destruct (nth_error frag (Z.to_nat d)) as [c|]; [|reflexivity].
+  destruct (N.eqb_spec c c_colon) as [->|]; [congruence|reflexivity].
+Qed.
+
+(* the direct declarations of a body whatever way it ends: all declarations terminated,
+   last one `name : value` up to the end of the body, last one `name :` up to the end of the body *)
+Theorem props_tree_tail frag from m l t :
+  seq_ok wf_node 0 m l -> tail_ok frag t ->
+  props_go frag from (mkPP None 0 from) [] (body_events_tail l t) = props_spec_tail frag from l t.
+Proof.
+  intros H Ht. unfold body_events_tail, events_forest, props_spec_tail.
+  rewrite (props_top frag from l 0 m from [] _ ltac:(lia) H).
+  destruct (props_items frag from from l) as [ps b]. cbn [fst snd]. rewrite app_nil_r.
+  destruct t as [|ns ne colon vs ve|ns ne colon]; cbn [tail_events].
+  - cbn [props_go props_flush pp_pending]. rewrite rev_involutive, app_nil_r. reflexivity.
+  - cbn [props_go props_flush ety estart eend edelim pp_nested pp_pending pp_before truthyZ Z.eqb negb].
+    cbn [rev]. rewrite rev_involutive.
+    unfold mk_property, property_of, r_start, r_end, decl_end; cbn [fst snd Z.eqb]. reflexivity.
+  - cbn [tail_ok] in Ht.
+    cbn [props_go props_flush ety estart eend edelim pp_nested pp_pending pp_before truthyZ Z.eqb negb andb].
+    unfold r_delim; cbn [fst snd].
+    rewrite (colon_at_test frag colon Ht).
+    cbn [rev]. rewrite rev_involutive.
+    unfold mk_property, property_of, zlen_frag, r_start, r_end, decl_end; cbn [fst snd Z.eqb]. reflexivity.
+Qed.
+
+(* the two ways of the statement are the instances TailNone / TailValue *)
+Lemma body_events_as_tail l last :
+  body_events l last =
+  body_events_tail l match last with Some (ns, ne, colon, vs, ve) => TailValue ns ne colon vs ve | None => TailNone end.
+Proof. destruct last as [[[[[ns ne] colon] vs] ve]|]; reflexivity. Qed.
+
+(* a trailing name that has no colon is not reported *)
+Theorem props_tree_bare_name frag from m l ns ne d :
+  seq_ok wf_node 0 m l -> no_colon_at frag d ->
+  props_go frag from (mkPP None 0 from) [] (events_forest l ++ [mkEv PropertyName ns ne d]) =
+  props_spec_tail frag from l TailNone.
+Proof.
+  intros H Hd. unfold events_forest, props_spec_tail.
+  rewrite (props_top frag from l 0 m from [] _ ltac:(lia) H).
+  destruct (props_items frag from from l) as [ps b]. cbn [fst snd]. rewrite app_nil_r.
+  cbn [props_go props_flush ety estart eend edelim pp_nested pp_pending pp_before truthyZ Z.eqb negb andb].
+  unfold r_delim; cbn [fst snd].
+  rewrite (no_colon_at_test frag d Hd). rewrite rev_involutive, app_nil_r. reflexivity.
 Qed.
